@@ -41,6 +41,7 @@ Inductive reason := RUnknown | RConnectFailed | RRequested | RReadError | RWrite
 
 Inductive event :=
   | Create | ConnectStart | ConnectOk | ConnectFail | ConnectTimeout
+  | ConnectFailOther             (* open_connection raises something that is not an OSError (OverflowError, UnicodeError, ...) *)
   | Cancel                       (* the attempt task is cancelled where it is suspended *)
   | SendInit (m : smode)         (* drain of the init message returns / raises / times out; ok => _finalize_peer_connection *)
   | StartReader                  (* server only: client.login starts the reader task *)
@@ -199,6 +200,15 @@ Definition step0 (c : conn) (e : event) : conn :=
                  socket and raises ConnectionFailedError; nothing is reported *)
               set_res ResFail (set_att ANone c)
           end
+      | _ => c
+      end
+  | ConnectFailOther =>
+      match at_ c with
+      | AConnecting =>
+          if CONNECT_FAILURE_CATCHES_ALL then
+            let '(c, blocked) := do_disconnect c in
+            if blocked then set_att (AOwnClose ThenRaise) c else set_res ResFail (set_att ANone c)
+          else set_res ResFail (set_att ANone c)     (* the exception leaves connect() and the attempt: nothing is closed *)
       | _ => c
       end
   | ConnectFail | ConnectTimeout =>
